@@ -94,6 +94,10 @@ def build_root_evaluator(function: str, arguments: Union[Dict, Tuple]) -> Callab
     return lambda kwargs: all(group(kwargs) for group in group_of_nodes)
 
 
+def _is_negated(function: str) -> bool:
+    return "Not" in function
+
+
 def _build_key_evaluator(function: str, new_function: str, arg_a: Any, arg_b: Any) -> Callable:
     # One evaluator per condition key. Built in its own scope so that every evaluator keeps the key and the
     # nodes it was built for (closures created inside a loop would all see the values of the last iteration).
@@ -105,10 +109,14 @@ def _build_key_evaluator(function: str, new_function: str, arg_a: Any, arg_b: An
     if for_all_values or function.startswith("ForAnyValue") or isinstance(arg_b, list):
         nodes = [build_root_evaluator(new_function, (arg_a, item)) for item in convert_to_list(arg_b)]
         combine_context_values = all if for_all_values else any
+        # Several policy values are alternatives for a positive operator (any of them may match), but a negated
+        # operator (StringNotEquals, ArnNotLike, NotIpAddress...) must hold for every one of them.
+        combine_policy_values = all if _is_negated(new_function) else any
 
         def evaluate(kwargs):
             return combine_context_values(
-                any(node({**kwargs, arg_a: item}) for node in nodes) for item in convert_to_list(kwargs[arg_a])
+                combine_policy_values(node({**kwargs, arg_a: item}) for node in nodes)
+                for item in convert_to_list(kwargs[arg_a])
             )
 
         return evaluate
